@@ -257,6 +257,7 @@ Section WorldFacts.
   Variable default_flags : nat -> flags.
   Variable base_topos : nat -> list nat.
   Variable perms_of : nat -> list nat.
+  Variable decays_of : nat -> nat -> list nat.
   Variable register : nat -> flags -> ntab.
   Variable top : nat -> config -> ntab -> val * vdict * vdict * vdict.
   Variable topo_vars : nat -> nat -> vdict.
@@ -277,9 +278,9 @@ Section WorldFacts.
   Notation equiv := (lookup_equiv (V:=val) Nat.eqb).
   Notation Core := (core top topo_vars moves xrepl new_masses loop_pars).
   Notation Spec := (formulate_spec register top topo_vars moves align_syms xrepl new_masses loop_pars).
-  Notation Step := (step default_flags base_topos perms_of register top topo_vars moves
+  Notation Step := (step default_flags base_topos perms_of decays_of register top topo_vars moves
                          align_syms xrepl new_masses loop_pars).
-  Notation Run := (run default_flags base_topos perms_of register top topo_vars moves
+  Notation Run := (run default_flags base_topos perms_of decays_of register top topo_vars moves
                        align_syms xrepl new_masses loop_pars).
   Notation Define := (define_symbols align_syms).
   Notation World := (world val ntab).
@@ -501,6 +502,8 @@ Section WorldFacts.
       apply inv_ntab_bput; auto. simpl. destruct f; simpl; eauto.
     - destruct (nth_error (w_builders w) b) as [B|] eqn:Eb; simpl; auto.
       apply inv_ntab_bput; auto. simpl. rewrite Hrr. reflexivity.
+    - destruct (nth_error (w_builders w) b) as [B|] eqn:Eb; simpl; auto.
+      apply inv_ntab_bput; auto. simpl. eauto.
     - destruct (nth_error (w_builders w) b) as [B|] eqn:Eb; simpl; auto.
       apply inv_ntab_bput; auto. simpl. eauto.
     - destruct (nth_error (w_builders w) b) as [B|] eqn:Eb; simpl; auto.
